@@ -172,7 +172,6 @@ End Run3.
 (* ------------------------------------------------------------------ the theorem *)
 Theorem compile_correct_f3 F bld M B fuel host o :
   in_f3 M = true ->
-  handles_inj (main_names3 (main_cards M)) = true ->
   depth_ok3 (main_cards M) = true ->
   compile M default_options = COk B ->
   N.of_nat (length (Compiler.p_ids B)) < two32 ->
@@ -184,8 +183,8 @@ Theorem compile_correct_f3 F bld M B fuel host o :
     forall n, no_collision (main_names3 (main_cards M)) n ->
       option_map vm_tree (read_var_by_name (C15Link.to_vm B) (snd r) n) = RefSem.assoc n (RefSem.ob_globals o).
 Proof.
-  intros HM Hinj Hdepth HB Hlen Hsmall Href.
-  destruct (compile_f3_shape M B HM HB Hlen) as (rest & Hbc & Hnames & Tinj & Tlt).
+  intros HM Hdepth HB Hlen Hsmall Href.
+  destruct (compile_f3_shape M B HM HB Hlen) as (rest & Hbc & Hnames & Tinj & Tlt & Hinj).
   destruct (eval_program_f3 fuel M host o HM Href) as (g & Hrun & Hkind & Hgs & Hglob).
   pose proof (in_f3_cards M HM) as Hcards.
   set (T := Compiler.p_ids B) in *. set (cards := main_cards M) in *. set (names := main_names3 cards) in *.
